@@ -64,6 +64,11 @@ func DigestAppxTar(r io.Reader, hash crypto.Hash, doPageHash bool) (*AppxDigest,
 	// digest non-signature-related files
 copyf:
 	for _, f := range inz.File {
+		if int64(f.Offset) != info.outz.DirLoc {
+			// the package digest covers the files back to back from offset 0, and the
+			// new directory is laid out that way
+			return nil, fmt.Errorf("file %s does not follow the previous one: a package with leading or embedded data cannot be signed", f.Name)
+		}
 		switch f.Name {
 		case appxManifest, appxBlockMap, appxContentTypes, appxCodeIntegrity, appxSignature, bundleManifestFile:
 			info.patchStart = int64(f.Offset)
